@@ -59,7 +59,7 @@ def run_check(ctx, prop, args, common, extract, leandrv):
                     ctx.broke("extraction", name, detail)
         except Exception as ex:  # source no longer has the expected shape
             ctx.broke("extraction", "extract.py", f"{type(ex).__name__}: {ex}")
-        targets = ["GotranxModel", mod, "GotranxProofs.Pins"]
+        targets = ["GotranxModel", *mod.split(), "GotranxProofs.Pins"]
         br = leandrv.lake_build(targets)
         ctx.stats["lake_build_s"] = round(br.wall, 1)
         if not br.ok:
